@@ -118,4 +118,55 @@ theorem InCell.tie_even (hr : r < f.infBits) (c' : Nat) (hne : c' ≠ r)
 
 end cellQ
 
+/-! ## the overflow threshold -/
+
+/-- IEEE overflow threshold `(2 − 2^−p)·2^emax` = largest finite + half an ulp (`emax = bias`) -/
+def thrQ (f : Fmt) : ℚ := (2 - (2 : ℚ) ^ (-(f.p : ℤ))) * (2 : ℚ) ^ (f.bias : ℤ)
+
+theorem ovf_iff_thr {f : Fmt} (hf : WF f) (num : Nat) {den : Nat} (hd : 0 < den) :
+    den * (ival f (f.infBits - 1) + ival f f.infBits) ≤ 2 * (num * 2 ^ (L f)) ↔
+      thrQ f ≤ (num : ℚ) / den := by
+  obtain ⟨i1, i2⟩ := ival_infBits hf
+  have hp := hf.hp
+  have hbias := bias_pos hf
+  have hM := M_eq hf
+  have hCn : 2 * 2 ^ (f.maxExpField - 2) = 2 ^ f.bias * 2 ^ f.bias := by
+    rw [← Nat.pow_add, ← Nat.pow_succ']; congr 1; omega
+  have hUn : 2 * 2 ^ (L f) = 2 ^ f.bias * 2 ^ (f.p - 1) := by
+    rw [← Nat.pow_add, ← Nat.pow_succ']; congr 1; unfold L; omega
+  have hAn := two_pow_P hf
+  rw [← Nat.cast_le (α := ℚ)]
+  unfold thrQ
+  rw [zpow_neg, zpow_natCast, zpow_natCast]
+  have hA : (2 : ℚ) ^ f.p = 2 * 2 ^ (f.p - 1) := by exact_mod_cast hAn
+  have hC : 2 * (2 : ℚ) ^ (f.maxExpField - 2) = 2 ^ f.bias * 2 ^ f.bias := by exact_mod_cast hCn
+  have hU : 2 * (2 : ℚ) ^ (L f) = 2 ^ f.bias * 2 ^ (f.p - 1) := by exact_mod_cast hUn
+  have j1 : (ival f f.infBits : ℚ) = 2 * 2 ^ (f.p - 1) * 2 ^ (f.maxExpField - 2) := by exact_mod_cast i1
+  have j2 : (ival f (f.infBits - 1) : ℚ) + 2 ^ (f.maxExpField - 2)
+      = 2 * 2 ^ (f.p - 1) * 2 ^ (f.maxExpField - 2) := by exact_mod_cast i2
+  push_cast
+  rw [hA]
+  have hTpos : (0 : ℚ) < 2 ^ (f.p - 1) := by positivity
+  have hBpos : (0 : ℚ) < 2 ^ f.bias := by positivity
+  have hUpos : (0 : ℚ) < 2 ^ (L f) := by positivity
+  generalize (2 : ℚ) ^ (f.p - 1) = T at *
+  generalize (2 : ℚ) ^ f.bias = B at *
+  generalize (2 : ℚ) ^ (f.maxExpField - 2) = C at *
+  generalize (2 : ℚ) ^ (L f) = U at *
+  generalize (ival f f.infBits : ℚ) = I1 at *
+  generalize (ival f (f.infBits - 1) : ℚ) = I2 at *
+  have hD : (0 : ℚ) < den := by exact_mod_cast hd
+  generalize (den : ℚ) = D at *
+  generalize (num : ℚ) = N at *
+  have hI2 : I2 = 2 * T * C - C := by linarith
+  have hC' : C = B * B / 2 := by linarith
+  have hU' : U = B * T / 2 := by linarith
+  have e1 : D * (I2 + I1) = (B / 2) * ((4 * T - 1) * B * D) := by rw [hI2, j1, hC']; ring
+  have e2 : 2 * (N * U) = (B / 2) * (2 * T * N) := by rw [hU']; ring
+  have e3 : (2 - (2 * T)⁻¹) * B * D = ((4 * T - 1) * B * D) / (2 * T) := by
+    have : T ≠ 0 := ne_of_gt hTpos
+    field_simp; ring
+  rw [e1, e2, le_div_iff₀ hD, e3, div_le_iff₀ (by positivity), mul_le_mul_iff_right₀ (by positivity)]
+  constructor <;> intro h <;> linarith
+
 end LexVerif.Proof.RoundNE
